@@ -11,13 +11,16 @@ _T = ['C14_2', 'C14_2_rowdict_sound', 'C14_2_rowdict_complete', 'C14_2_iff', 'C1
       'C14_4_values_from_using', 'C14_4_last_wins', 'C14_4_unprefixed', 'C14_4_foreign_prefix', 'C14_4_own_prefix',
       'C14_4_partition_size_removed', 'C14_5_sound', 'C14_5_complete', 'C14_5_neutralised', 'C14_where_clauses',
       'C14_limit_plain_row', 'C14_limit_needs_use_limit', 'C14_1', 'C14_1_nodup', 'C14_1_plan', 'C14_1_apply_input', 'C14_1_predictor_first',
-      'C14_partial', 'C14_5_swap', 'C14_rewrite_keeps_table', 'C14_witness_on_gt',
+      'C14_partial', 'C14_5_swap', 'C14_rewrite_keeps_table', 'C14_obs_non_equality_mapped',
       'C14_target_stays']
 THEOREMS = ['MindsVerif.Props.C14.' + t for t in _T]
 ASSUME = [
-    'PlanJoinTablesQuery (check_node_condition, process_predictor, process_table, process_subselect, '
-    'get_filters_from_join_conditions, join_condition_to_columns_map, add_plan_step) is hand-modelled in '
-    'MindsVerif.ModelJoin; tie = correspondence of whole plans on generated join queries (this run)',
+    'PlanJoinTablesQuery (resolve_table aliases, _check_identifiers, check_query_conditions / check_node_condition, '
+    'check_use_limit, mark_nullable_tables, process_predictor, process_table incl. where_is_applied_before_join and the '
+    'LIMIT / OFFSET / ORDER BY take-over, process_subselect, get_filters_from_join_conditions, '
+    'join_condition_to_columns_map, add_plan_step / partitions, the final QueryStep) and the integration cut of '
+    'prepare_integration_select are hand-modelled in MindsVerif.ModelJoin; tie = correspondence of whole plans on '
+    'generated join queries (this run); every model function used by a theorem appears in the compared plan text',
     'fragment of the correspondence: left-deep joins of 2-5 operands (the grammar has no parenthesised joins), sub-select '
     'operands and nested selects in WHERE with arbitrary own plans (opaque: only their number of steps enters the model), '
     'select lists with aggregates as targets / nested in expressions, functions, CAST, CASE; DISTINCT, GROUP BY, HAVING, '
@@ -118,6 +121,11 @@ def run(chk):
     chk.samples.append(dict(theorem='C14_2_outer: ev val w <= ev val (neutTop consumed w) for every three-valued valuation with (0 = 0) true'))
     chk.samples.append(dict(theorem='C14_3: every WHERE-derived filter of operand j is the stored copy of a top-level conjunct of WHERE '
                                     'whose only identifier resolves to j; nothing is pushed when or occurs'))
+    chk.samples.append(dict(theorem='C14_1: planWith ops w u k info = ok steps -> the operands of the apply steps (also inside MapReduceSteps) '
+                                    'are a permutation of modelIdx ops, and the input of the apply step of operand i Holds leftOf ops i'))
+    chk.samples.append(dict(theorem='C14_limit_plain_row: a fetch step of a produced plan carries LIMIT / OFFSET / ORDER BY only if the query has '
+                                    'no HAVING, GROUP BY, DISTINCT and no aggregate node anywhere in the select list'))
+    chk.samples.append(dict(theorem='C14_partial : C14_full (all clauses of the statement, for all inputs)'))
     return chk.finish(assumptions=ASSUME)
 
 
